@@ -1,3 +1,4 @@
+import OutlineModel.Proofs.TieCipherList
 import OutlineModel.Proofs.CipherList
 import OutlineModel.Proofs.FirstWins
 import OutlineModel.Model.Auth
@@ -193,5 +194,54 @@ theorem header_fits : ∀ c ∈ Gen.ciphers, c.saltSize + 2 + c.tagSize ≤ Gen.
 /- non-vacuity -/
 example : (lookup [{ ref := 1, id := "a", key := 0, lastIP := some 7 }, { ref := 2, id := "b", key := 1, lastIP := none }]
     (some 7) (fun k => k == 1)).2 = some ({ ref := 2, id := "b", key := 1, lastIP := none }, 1) := by decide
+
+
+/-! ### The same statements about the code itself
+
+`Gen.Code.matchesIP`, `Gen.Code.cipherList.SnapshotForClientIP / MarkUsedByClientIP / Update` (service/cipher_list.go) and
+`Gen.Code.findEntry` (service/tcp.go) are TRANSLATED from the source on every run (extract/golean.go); container/list is the
+prelude's (elements with an identity, front first); `shadowsocks.Unpack` and the key's `SaltSize` / `TagSize` are
+parameters (any functions). -/
+
+/-- the translated `SnapshotForClientIP` never panics (every array store is in range), leaves the list alone and returns
+    the model's snapshot — hence a permutation of the configured entries: nothing dropped, nothing invented -/
+theorem code_snapshot (cl : Gen.Code.cipherList) (ip : GoRT.Opaque "netip.Addr") :
+    ∃ snap, Gen.Code.cipherList.SnapshotForClientIP cl ip = some (cl, snap) ∧
+      snap.map Tie.CipherList.absEntry = snapshot (cl.list.map Tie.CipherList.absEntry) (Tie.CipherList.absIP ip) ∧
+      (snap.map Tie.CipherList.absEntry).Perm (cl.list.map Tie.CipherList.absEntry) := by
+  obtain ⟨snap, h1, h2⟩ := Tie.CipherList.snapshot_tie cl ip
+  exact ⟨snap, h1, h2, by rw [h2]; exact snapshot_perm _ _⟩
+
+/-- the translated `MarkUsedByClientIP` is the model's `markUsed` (move-to-front of a current element, no-op on the list for
+    a stale one, client IP recorded) and `Update` replaces the list -/
+theorem code_markUsed_update (cl : Gen.Code.cipherList) (e : GoRT.ListElem Gen.Code.CipherEntry) (ip : GoRT.Opaque "netip.Addr")
+    (src : List (GoRT.ListElem Gen.Code.CipherEntry))
+    (hid : ∀ x ∈ cl.list, x.id = e.id → x.Value.ID = e.Value.ID ∧ x.Value.CryptoKey = e.Value.CryptoKey) :
+    (∃ cl', Gen.Code.cipherList.MarkUsedByClientIP cl e ip = some cl' ∧
+        cl'.list.map Tie.CipherList.absEntry = markUsed (cl.list.map Tie.CipherList.absEntry) e.id (Tie.CipherList.absIP ip)) ∧
+    Gen.Code.cipherList.Update cl src = some { cl with list := src } := by
+  obtain ⟨cl', h1, _, h3⟩ := Tie.CipherList.markUsed_tie cl e ip hid
+  exact ⟨⟨cl', h1, h3⟩, rfl⟩
+
+/-- **code_findEntry**: the translated trial-decryption loop of tcp.go, for every snapshot: if the bytes read for the key
+    search cover salt+2+tag of every key tried (what `header_fits` says of the generated cipher table and
+    `bytesForKeyFinding`), it never panics and returns the FIRST element whose key opens the header, (nil, nil) if none:
+    sound and complete for every key list and order -/
+theorem code_findEntry (saltSize tagSize : GoRT.Opaque "shadowsocks.EncryptionKey" → Int)
+    (unpack : List UInt8 → List UInt8 → GoRT.Opaque "shadowsocks.EncryptionKey" → List UInt8 × Option String)
+    (firstBytes : List UInt8) (ciphers : List (GoRT.ListElem Gen.Code.CipherEntry)) (l : GoRT.Opaque "slog.Logger")
+    (hfits : ∀ elt ∈ ciphers, 0 ≤ saltSize elt.Value.CryptoKey + 2 + tagSize elt.Value.CryptoKey ∧
+      saltSize elt.Value.CryptoKey + 2 + tagSize elt.Value.CryptoKey ≤ (firstBytes.length : Int)) :
+    Gen.Code.findEntry saltSize tagSize unpack firstBytes ciphers l =
+      some (match ciphers.find? (fun elt => Tie.CipherList.opens saltSize tagSize unpack firstBytes elt.Value.CryptoKey) with
+            | some elt => (some elt.Value, some elt)
+            | none => (none, none)) :=
+  Tie.CipherList.findEntry_tie saltSize tagSize unpack firstBytes ciphers l hfits
+
+/-- ... and what it finds is the model's `findEntry` over the abstracted snapshot (validity is a function of the key) -/
+theorem code_findEntry_is_model (ciphers : List (GoRT.ListElem Gen.Code.CipherEntry)) (valid : Nat → Bool) :
+    (ciphers.find? (fun elt => valid elt.Value.CryptoKey.val)).map Tie.CipherList.absEntry =
+      findEntry valid (ciphers.map Tie.CipherList.absEntry) :=
+  Tie.CipherList.find_abs ciphers valid
 
 end OutlineModel.Props.C01
